@@ -76,7 +76,8 @@ def oracle(case, impl):
     if any(l.startswith("fault") for l in impl):
         return ["fault: " + [l for l in impl if l.startswith("fault")][0]]
     notes = []          # all notes in the section
-    known = {}          # accessor -> number of notes it knows
+    knows = {}          # accessor -> the notes it knows (indices into [notes]): those in the section when it was
+                        # created, plus the ones it added itself - an accessor does not see what another one adds later
     fails = []
     it = iter([l for l in impl if l.split()[1] in ("40", "41", "42", "1")])
     enc = case.meta["enc"]
@@ -84,28 +85,28 @@ def oracle(case, impl):
         for o in case.meta["ops"]:
             if o[0] == "add":
                 notes.append((o[2] & 0xffffffff, o[3], o[4]))
-                known[o[1]] = len(notes)      # an accessor that adds sees all earlier notes too
+                knows.setdefault(o[1], []).append(len(notes) - 1)
             elif o[0] == "new":
-                known[o[1]] = len(notes)
+                knows[o[1]] = list(range(len(notes)))
             elif o[0] == "num":
                 _, vals = parse_n(next(it))
-                if vals[1] != known[o[1]]:
-                    fails.append("count: accessor %d reports %d notes, %d were added" % (o[1], vals[1], known[o[1]]))
+                if vals[1] != len(knows[o[1]]):
+                    fails.append("count: accessor %d reports %d notes, it found or added %d" % (o[1], vals[1], len(knows[o[1]])))
             elif o[0] == "get":
                 _, vals, name = parse_b(next(it))
                 idx = o[2]
-                if idx < known[o[1]]:
+                if idx < len(knows[o[1]]):
                     if vals[2] != 1:
                         fails.append("get: note %d exists but get_note returned false" % idx)
                         continue
                     _, v2, desc = parse_b(next(it))
-                    typ, nm, ds = notes[idx]
+                    typ, nm, ds = notes[knows[o[1]][idx]]
                     if vals[3] != typ or name != nm or vals[4] != len(ds) or (desc or b"") != ds:
                         fails.append("roundtrip: note %d read back differently (type %d/%d, name %r/%r, desc %d/%d bytes)" %
                                      (idx, vals[3], typ, name, nm, vals[4], len(ds)))
                 else:
                     if vals[2] != 0:
-                        fails.append("range: index %d does not exist (count %d) but get_note returned true" % (idx, known[o[1]]))
+                        fails.append("range: index %d does not exist (count %d) but get_note returned true" % (idx, len(knows[o[1]])))
                         next(it)
             elif o[0] == "data":
                 _, vals, d = parse_b(next(it))
@@ -131,6 +132,13 @@ def generate(rng, tier):
         ops = [("new", 0)]
         size = 0
         alias = i % 3 == 1
+        # two accessors on the same section, used interleaved (a quarter of the cases): the one that adds a note must
+        # return it as its last one, whatever the other has appended in between
+        two = i % 4 == 2
+        alias = alias and not two
+        if two:
+            ops.append(("new", 1))
+        mine = {0: 0, 1: 0}
         have = []           # indices of notes with a non-empty descriptor, and the descriptors
         for j in range(k):
             name = rbytes(rng, rng.randint(0, 20), alphabet=range(1, 256))
@@ -139,14 +147,22 @@ def generate(rng, tier):
                 # duplicate / re-tag an existing note: the descriptor handed to add_note() is the pointer get_note() returned
                 ix, desc = rng.choice(have)
                 ops.append(("addself", 0, rval(rng, 32), name, ix))
+            elif two:
+                a = rng.randint(0, 1)
+                ops.append(("add", a, rval(rng, 32), name, desc))
+                mine[a] += 1
+                ops.append(("num", a))
+                ops.append(("get", a, mine[a] - 1))
             else:
                 ops.append(("add", 0, rval(rng, 32), name, desc))
             if len(desc):
                 have.append((j, desc))
             size += len(spec_note_bytes("lsb", 0, name, desc))
-            if rng.random() < 0.3:
+            if rng.random() < 0.3 and not two:
                 ops.append(("num", 0))
                 ops.append(("get", 0, rng.randint(0, j + 1)))
+        if two:
+            ops.append(("new", 0))
         for acc in (0, 1):
             if acc == 1:
                 ops.append(("new", 1))
